@@ -34,6 +34,13 @@ class M(Model):
     def early_end_explained(self, states, actions):
         return face_uniform(states[-1].cube)
 
+    @staticmethod
+    def early_end_explained_jnp(s):
+        """device-side twin of early_end_explained for the bulk sweeps (candidates only; the host predicate decides)"""
+        import jax.numpy as jnp
+
+        return jnp.all(s.cube == s.cube[:, :1, :1])
+
     # ---- C10
     def validate_instance(self, s0):
         out = []
